@@ -26,7 +26,7 @@ func ruleLatencyReport(r *Run) {
 		pings := 0
 		for _, ev := range path.Events {
 			if ev.Kind == EvAssign && len(ev.Lhs) == 1 && len(ev.Rhs) == 1 {
-				got[r.P.Canon(start, ev.Lhs[0])] = r.P.Canon(start, ev.Rhs[0])
+				got[r.P.Canon(ev.Fn, ev.Lhs[0])] = r.P.Canon(ev.Fn, ev.Rhs[0])
 			}
 			if ev.Kind == EvCall && ev.Callee == sendPing.Obj {
 				pings++
@@ -82,18 +82,18 @@ func ruleLatencyReport(r *Run) {
 		valueTested := false
 		var iterOutcome string
 		for i, ev := range path.Events {
-			if ev.Kind == EvAssign && r.P.Canon(on, ev.Lhs[0]) == "recv.Iteration" {
+			if ev.Kind == EvAssign && r.P.Canon(ev.Fn, ev.Lhs[0]) == "recv.Iteration" {
 				switch {
 				case ev.Tok == token.DEC:
 					decs++
-				case ev.Tok == token.SUB_ASSIGN && len(ev.Rhs) == 1 && r.P.Canon(on, ev.Rhs[0]) == "1":
+				case ev.Tok == token.SUB_ASSIGN && len(ev.Rhs) == 1 && r.P.Canon(ev.Fn, ev.Rhs[0]) == "1":
 					decs++
 				default:
 					decs += 100 // any other write to the round counter
 				}
 			}
 			if ev.Kind == EvGuard && ev.Cond != nil {
-				c := r.P.Canon(on, ev.Cond)
+				c := r.P.Canon(ev.Fn, ev.Cond)
 				if strings.Contains(c, entry+".End") || strings.Contains(c, entry+".Start") {
 					valueTested = true
 				}
